@@ -142,6 +142,19 @@ impl<T> Tagged<T> {
     }
 }
 
+#[cfg(feature = "circ_verif")]
+impl<T> Tagged<T> {
+    pub(crate) fn verif_word(&self) -> usize {
+        self.ptr as usize
+    }
+
+    pub(crate) fn verif_from_word(word: usize) -> Self {
+        Self {
+            ptr: word as *mut T,
+        }
+    }
+}
+
 /// Returns a bitmask containing the unused least significant bits of an aligned pointer to `T`.
 const fn low_bits<T>() -> usize {
     (1 << align_of::<T>().trailing_zeros()) - 1
